@@ -22,17 +22,19 @@ Piece = tuple
 MAX_PATHS = 64
 
 
-def _const_bool(e, ext_name, ext_val):
+def _const_bool(e, ext_name, ext_val, benv=None):
     """Evaluate a condition to True/False when it is decided by the binding of `extension`, else None."""
     if isinstance(e, ast.Name) and e.id == ext_name:
         return ext_val
+    if isinstance(e, ast.Name) and benv and e.id in benv:
+        return _const_bool(benv[e.id], ext_name, ext_val, benv)
     if isinstance(e, ast.Constant) and isinstance(e.value, bool):
         return e.value
     if isinstance(e, ast.UnaryOp) and isinstance(e.op, ast.Not):
-        v = _const_bool(e.operand, ext_name, ext_val)
+        v = _const_bool(e.operand, ext_name, ext_val, benv)
         return None if v is None else (not v)
     if isinstance(e, ast.BoolOp):
-        vals = [_const_bool(v, ext_name, ext_val) for v in e.values]
+        vals = [_const_bool(v, ext_name, ext_val, benv) for v in e.values]
         if isinstance(e.op, ast.And):
             if any(v is False for v in vals):
                 return False
@@ -47,10 +49,14 @@ def _const_bool(e, ext_name, ext_val):
     return None
 
 
-def _residual_cond(e, ext_name, ext_val) -> str:
+def _residual_cond(e, ext_name, ext_val, benv=None) -> str:
     """Condition text with the decided conjuncts removed."""
+    if isinstance(e, ast.Name) and benv and e.id in benv:
+        return _residual_cond(benv[e.id], ext_name, ext_val, benv)
+    if isinstance(e, ast.UnaryOp) and isinstance(e.op, ast.Not) and isinstance(e.operand, ast.Name) and benv and e.operand.id in benv:
+        return "not (" + _residual_cond(benv[e.operand.id], ext_name, ext_val, benv) + ")"
     if isinstance(e, ast.BoolOp):
-        rest = [v for v in e.values if _const_bool(v, ext_name, ext_val) is None]
+        rest = [v for v in e.values if _const_bool(v, ext_name, ext_val, benv) is None]
         if len(rest) == 1:
             return src(rest[0])
         if rest:
@@ -170,6 +176,15 @@ class Printer:
             p = self.pieces(st.value, env, ext_val) if st.value is not None else []
             results.append((p, conds))
             return []
+        if isinstance(st, ast.Assign) and len(st.targets) == 1 and isinstance(st.targets[0], ast.Name) and isinstance(st.value, (ast.Compare, ast.BoolOp)) or (
+                isinstance(st, ast.Assign) and len(st.targets) == 1 and isinstance(st.targets[0], ast.Name) and isinstance(st.value, ast.Call)
+                and isinstance(st.value.func, ast.Name) and st.value.func.id in ("isinstance", "len", "bool")):
+            # a condition kept in a temporary
+            e2 = dict(env)
+            b = dict(env.get("§benv", {}))
+            b[st.targets[0].id] = st.value
+            e2["§benv"] = b
+            return [(e2, conds)]
         if isinstance(st, ast.Assign) and len(st.targets) == 1 and isinstance(st.targets[0], ast.Name):
             name = st.targets[0].id
             v = st.value
@@ -193,18 +208,19 @@ class Printer:
             e2[name] = env[name] + self.pieces(st.value, env, ext_val)
             return [(e2, conds)]
         if isinstance(st, ast.If):
-            v = _const_bool(st.test, self.ext, ext_val)
+            benv = env.get("§benv", {})
+            v = _const_bool(st.test, self.ext, ext_val, benv)
             if v is True:
                 return self._block(list(st.body), env, conds, ext_val, results, loop)
             if v is False:
                 return self._block(list(st.orelse), env, conds, ext_val, results, loop)
-            c = _residual_cond(st.test, self.ext, ext_val)
+            c = _residual_cond(st.test, self.ext, ext_val, benv)
             a = self._block(list(st.body), dict(env), conds + [(c, True)], ext_val, results, loop)
             b = self._block(list(st.orelse), dict(env), conds + [(c, False)], ext_val, results, loop)
             return a + b
         if isinstance(st, ast.For):
             # per-iteration effect on each string variable
-            names = [n for n in env]
+            names = [n for n in env if n != "§benv"]
             alts: Dict[str, list] = {n: [] for n in names}
             start = {n: [("§", n)] for n in names}
             inner_results: list = []
